@@ -361,7 +361,7 @@ def find_arg_type(tokens: list[Token], tokenizer: Tokenizer) -> ArgType:
                 )
             return ArgType.INTEGER
         if is_float(tokens[1].string):
-            if len(tokens) > 1:
+            if len(tokens) > 2:
                 raise JMCSyntaxException(
                     f"Unexpected {
                         tokens[2].token_type.value} after float/decimal in function argument",
